@@ -526,6 +526,8 @@ pub struct GenCfg {
     pub allow_bitvec: bool,
     pub allow_alias: bool,
     pub allow_phantom: bool,
+    /// PhantomData below Vec/Option/... (registers a PhantomData entry; known generator panic)
+    pub nested_phantom: bool,
     pub allow_duration: bool,
     pub allow_compact: bool,
     pub allow_codec_skip: bool,
@@ -548,6 +550,7 @@ impl Default for GenCfg {
             allow_bitvec: true,
             allow_alias: false,
             allow_phantom: true,
+            nested_phantom: false,
             allow_duration: false,
             allow_compact: true,
             allow_codec_skip: true,
@@ -639,7 +642,14 @@ impl<'r, R: Rng> ProgGen<'r, R> {
             }
             4 | 5 => {
                 let n = *[0usize, 1, 2, 2, 3, 4].choose(self.rng).unwrap();
-                Ty::Tuple((0..n).map(|_| self.gen_ty(cx, d, heap)).collect())
+                let mut elems: std::vec::Vec<Ty> = (0..n).map(|_| self.gen_ty(cx, d, heap)).collect();
+                if self.cfg.allow_phantom && !cx.params.is_empty() && self.chance(0.1) {
+                    // PhantomData as a tuple element is filtered out by scale-info
+                    let i = self.rng.gen_range(0..cx.params.len());
+                    let at = self.rng.gen_range(0..=elems.len());
+                    elems.insert(at, Ty::Phantom(Ty::Param(i).b()));
+                }
+                Ty::Tuple(elems)
             }
             6 | 7 => Ty::Option(self.gen_ty(cx, d, heap).b()),
             8 => Ty::Result(self.gen_ty(cx, d, heap).b(), self.gen_ty(cx, d, heap).b()),
@@ -665,7 +675,7 @@ impl<'r, R: Rng> ProgGen<'r, R> {
                 *[Prim::U8, Prim::U16, Prim::U32, Prim::U64].choose(self.rng).unwrap(),
                 self.chance(0.5),
             ),
-            17 if self.cfg.allow_phantom && !cx.params.is_empty() => {
+            17 if self.cfg.allow_phantom && !cx.params.is_empty() && (depth == 0 || self.cfg.nested_phantom) => {
                 let i = self.rng.gen_range(0..cx.params.len());
                 Ty::Phantom(Ty::Param(i).b())
             }
